@@ -150,7 +150,18 @@ class Ctx:
             e.update(env)
         r = T.run_tlc(module, cfg, env=e, workers=workers, timeout=timeout, depth_first=depth_first,
                       metaname=f"{self.pid}_{module}_{os.path.basename(trace_file)}")
-        T.require_clean(r, label)
+        try:
+            T.require_clean(r, label)
+        except MachineryError:
+            if "Overflow when computing" in r.out:
+                # a recorded value so wild that TLC's 32-bit arithmetic overflows while judging it: on the unchanged tree no
+                # recorded value comes near that (every run of every seed would fail), so this is the code's doing
+                self._account(r, label, "trace-validation")
+                self._report("reject", "Reject:WildValue", f"overflow:{module}", None, None,
+                             {"property": self.pid, "kind": "trace", "module": module, "cfg": cfg, "env": env, "tlc_tail": r.out[-3000:]})
+                self.traces += n
+                return r
+            raise
         self._account(r, label, "trace-validation")
         acc = {p[1] for p in r.printed("ACCEPT")}
         rej = r.printed("REJECT")
